@@ -110,10 +110,21 @@ def run_verus(path, rlimit=None, extra=(), timeout=900):
         cmd += ['--rlimit', str(rlimit)]
     cmd += list(extra)
     t0 = time.time()
+    # own process group: on a timeout the solver processes started by verus are killed as well
+    proc = subprocess.Popen(cmd, stdout=subprocess.PIPE, stderr=subprocess.PIPE, text=True, start_new_session=True)
     try:
-        p = subprocess.run(cmd, capture_output=True, text=True, timeout=timeout)
-        out, err, rc = p.stdout, p.stderr, p.returncode
-    except subprocess.TimeoutExpired as e:
+        out, err = proc.communicate(timeout=timeout)
+        rc = proc.returncode
+    except subprocess.TimeoutExpired:
+        import signal
+        try:
+            os.killpg(proc.pid, signal.SIGKILL)
+        except Exception:
+            pass
+        try:
+            proc.communicate(timeout=10)
+        except Exception:
+            pass
         out, err, rc = '', 'timeout', 124
     wall = time.time() - t0
     js = None
@@ -212,12 +223,14 @@ def run_unit(unit, repo, verif, tier='quick', canary=True, workdir=None):
     if js and any(e['kind'] == 'resource' for e in errs):
         crate = os.path.splitext(os.path.basename(path))[0]
         slow = [f['function'] for f in fb if not f['success']]
+        if len(slow) > 3:
+            slow = []      # many functions out of budget: not an instability of one query
         still = []
         for fq in slow:
             short = fq[len(crate) + 2:] if fq.startswith(crate + '::') else fq
             ok = False
-            for rl2 in (rl, rl * 3):
-                rr = run_verus(path, rlimit=rl2, extra=['--verify-root', '--verify-function', short])
+            for rl2 in (rl,):
+                rr = run_verus(path, rlimit=rl2, extra=['--verify-root', '--verify-function', short], timeout=150)
                 j2 = rr['json']
                 vr2 = (j2 or {}).get('verification-results', {})
                 if vr2 and vr2.get('errors') == 0 and vr2.get('verified', 0) > 0 and not vr2.get('encountered-error') and not vr2.get('encountered-vir-error') and not parse_errors(rr['stderr'], path):
